@@ -122,4 +122,17 @@ example : (parseExts (encExts demo).length (encExts demo) {}).serverName = [97, 
     (parseExts (encExts demo).length (encExts demo) {}).protos = [[104, 50], [104, 116, 116, 112, 47, 49, 46, 49]] ∧
     (parseExts (encExts demo).length (encExts demo) {}).versions = [0x0304, 0x0303] := by decide
 
+/-! non-vacuity of `hello_parse_encode`: a concrete hello meets its hypotheses and is read back -/
+def demoExts : List Ext := [.sni [97, 46, 98], .alpn [[104, 50]], .versions [0x0304, 0x0303]]
+
+example : (∀ e ∈ demoExts, e.wf) ∧ (encExts demoExts).length < 65536 ∧ sniCount demoExts ≤ 1 := by
+  refine ⟨?_, by decide, by decide⟩
+  intro e he
+  simp only [demoExts, List.mem_cons, List.mem_nil_iff, or_false] at he
+  rcases he with rfl | rfl | rfl <;> simp [Ext.wf, encProtos, encLP8]
+
+example : (parseHello (encHello [0, 0, 0] 0x0303 (List.replicate 32 7) [] [0x1301, 0xc02f] [0] demoExts)).serverName = [97, 46, 98] := by
+  decide +kernel
+
+
 end L4.C07
